@@ -93,6 +93,26 @@ def showEPools : List EPool → String
   | [] => ""
   | p :: t => s!" | {p.nb} {p.rpnd}" ++ showEPools t
 
+def parseEState : List String → Option (EState × Int)
+  | h :: accu :: nl :: rest => do
+      let (lppd, rest) ← parseLppd (← parseNat nl) rest
+      match rest with
+      | nr :: rest =>
+        let (rew, rest) ← parseRew (← parseNat nr) rest
+        match rest with
+        | np :: rest =>
+          let (pools, rest) ← parseEPools (← parseNat np) rest
+          if !rest.isEmpty then none
+          some (⟨← parseNat accu, lppd, rew, pools⟩, ← parseInt h)
+        | _ => none
+      | _ => none
+  | _ => none
+
+/-- `einv …` (same fields as `eb`): the envelope `EInv` on the implementation's state -/
+def handleEInv (toks : List String) : Option String := do
+  let (s, _) ← parseEState toks
+  some (if Sif.Spec.C10.EInv s then "holds" else "outside")
+
 def handleEB : List String → Option String
   | h :: accu :: nl :: rest => do
       let (lppd, rest) ← parseLppd (← parseNat nl) rest
@@ -230,10 +250,12 @@ def handlePowEnv : List String → Option String
   | _ => none
 
 def handlePolicy : List String → Option String
+  | ["reset"] => some "ok"
   | "inv" :: rest => handleInv rest
   | "powenv" :: rest => handlePowEnv rest
   | "bb" :: rest => handleBB rest
   | "eb" :: rest => handleEB rest
+  | "einv" :: rest => handleEInv rest
   | "adm" :: rest => handleAdm rest
   | "chk" :: rest => handleChk rest
   | _ => none
